@@ -240,7 +240,8 @@ impl Format {
                         break;
                     }
                     cur_item_idx += 1;
-                    match self.items[cur_item_idx] {
+                    // NOTE: A format may hold exactly MAX_TOKENS items, so this index may be one past the end.
+                    match self.items.get(cur_item_idx).copied().flatten() {
                         Some(item) => {
                             cur_item = item;
                             cur_token = cur_item.token;
